@@ -24,7 +24,7 @@ DEADLINE = {"quick": 55, "thorough": 480}
 
 def REQUIRED(tier):
     req = RC.required_apply_arms(2)
-    req.update({"audit:run": 3000, "context:subtrees-compared": 3000, "original:checked": 3000, "episodes": 10})
+    req.update({"audit:run": 3000, "context:subtrees-compared": 3000, "original:checked": 3000, "episodes": 10, "root-query:after-apply": 3000})
     return req
 
 
